@@ -198,7 +198,7 @@ def check(ctx):
     nrand = 400 if quick else 5000
     tmp = ctx.path("tmp")
     os.makedirs(tmp, exist_ok=True)
-    info = drive(binp, ["--tmp", tmp, "--export-every", "2" if quick else "1", "--tables", ctx.path("tables.json"), "--scenarios", scn, "--seed", str(ctx.seed), "--random", str(nrand),
+    info = drive(binp, ["--tmp", tmp, "--export-every", "2" if quick else "4", "--tables", ctx.path("tables.json"), "--scenarios", scn, "--seed", str(ctx.seed), "--random", str(nrand),
                         "--sample", "120" if quick else "600", "--paced-every", "10" if quick else "25", "--paced-random", "30" if quick else "100", "--max-len", "40" if quick else "200"], trace)
     st = info["stats"]
     for k in ("stream_context_runs_1_portions", "stream_context_runs_2_portions", "stream_context_runs_3_portions",
